@@ -56,7 +56,8 @@ def gen_ops(rng, n):
                   'fnmade': lambda: [k], 'ffail': lambda: [k, small()]}[k]()
             if k == 'fmake':
                 nobj += 1
-        reqs.append([oid, op, rng.choice(['main', 'main', 'copy', 'thread', 'helper'])])
+        routes = ['main', 'main', 'copy', 'thread', 'helper'] + (['nested', 'nested'] if oid in (0, 1) else [])
+        reqs.append([oid, op, rng.choice(routes)])
     return reqs
 
 
@@ -81,6 +82,9 @@ class Routes:
         assert self.aq.get(timeout=30) == 'ready'
         for oid in list(self.main):
             self.share(oid)
+        # the hosted custom object holds proxies to the hosted list and dict: calls made through them run inside the server
+        self.main[3].adopt('0', self.main[0])
+        self.main[3].adopt('1', self.main[1])
         self.tq, self.rq = queue.Queue(), queue.Queue()
         self.thread = threading.Thread(target=self._thread, daemon=True)
         self.thread.start()
@@ -108,6 +112,8 @@ class Routes:
                 self.main[new_id] = pickle.loads(bytes.fromhex(self.aq.get(timeout=30)))
                 self.copy[new_id] = pickle.loads(pickle.dumps(self.main[new_id]))
             return ans
+        if route == 'nested':
+            return self.mod.do_op(self.main[3], ['via', str(oid), op])[0]
         if route == 'thread':
             self.tq.put((oid, op))
             ans, raw = self.rq.get(timeout=30)
@@ -133,14 +139,19 @@ def run_case(case):
     from harness.c13_procs import Factory
     from mpservice.multiprocessing.server_process import ServerProcess
     local = {0: list(case['list0']), 1: dict((k, v) for k, v in case['dict0']), 2: c14_procs.LocalValue(case['value0']), 3: Factory()}
-    obs, ref = [], []
+    local[3].adopt('0', local[0])
+    local[3].adopt('1', local[1])
+    obs, ref, extra = [], [], []
     with ServerProcess() as m:
         routes = Routes(m, case)
         try:
             nxt = 4
             for oid, op, route in case['reqs']:
                 a = routes.call(oid, op, route, nxt)
-                b, raw = c14_procs.do_op(local[oid], op)
+                if route == 'nested':
+                    b, raw = c14_procs.do_op(local[3], ['via', str(oid), op])
+                else:
+                    b, raw = c14_procs.do_op(local[oid], op)
                 if op[0] == 'fmake' and b[0] == 'list':
                     local[nxt] = raw             # outside a server managed() is the identity: the local value itself
                     b = ['proxy']
@@ -153,9 +164,16 @@ def run_case(case):
                 if oid in (2, 3):
                     continue
                 final[str(oid)] = [routes.call(oid, ['len'], 'main', None), c14_procs.do_op(local[oid], ['len'])[0]]
+            # a second manager class hosts another class under the same typeid, in the same client process
+            from harness.c13_procs import Factory2, ServerProcess2
+            with ServerProcess2() as m2:
+                f2, l2 = m2.Factory(), Factory2()
+                for op in (['call', 'bump', 3], ['call', 'only_here'], ['call', 'bump', 4]):
+                    extra.append([['second manager'] + op, c14_procs.do_op(f2, op)[0], c14_procs.do_op(l2, op)[0]])
+                extra.append([['first manager', 'fnmade'], routes.call(3, ['fnmade'], 'main', None), c14_procs.do_op(local[3], ['fnmade'])[0]])
         finally:
             routes.close()
-    return {'observed': obs, 'direct': ref, 'final': final}
+    return {'observed': obs, 'direct': ref, 'final': final, 'extra': extra}
 
 
 def oracle(case, res):
@@ -170,6 +188,9 @@ def oracle(case, res):
                 return f'request {i} {op} via {route}: the exception does not carry the server-side traceback ({a[3]})'
         elif a != b:
             return f'request {i} {op} on object {oid} via {route}: answered {a}, the direct call gives {b}'
+    for desc, a, b in res.get('extra', []):
+        if a[:3] != b[:3]:
+            return f'{desc}: answered {a}, the direct call gives {b}'
     for oid, (a, b) in res['final'].items():
         if a != b:
             return f'final length of object {oid}: {a} through the proxy, {b} directly'
@@ -185,13 +206,30 @@ def impl_main(argv):
     rng = random.Random(seed)
     cases = [c['cfg'] for c in corpus] + [gen_case(rng) for _ in range(n)]
     out = []
+    import faulthandler
+    import signal
+
+    class Hang(BaseException):
+        pass
+
+    def on_alarm(*a):
+        faulthandler.dump_traceback(file=sys.stderr)
+        raise Hang()
+    signal.signal(signal.SIGALRM, on_alarm)
+    import gc
+    gc.disable()      # CPython 3.12.1: a collection triggered while a thread is being started can run a Process finalizer
+                      # that joins a thread under threading._shutdown_locks_lock and deadlocks; collect at safe points only
     for c in cases:
+        gc.collect()
         t0 = time.time()
         try:
+            signal.alarm(90)
             res = run_case(c)
+            signal.alarm(0)
         except BaseException as e:  # noqa
+            signal.alarm(0)
             import traceback
-            res = {'crash': repr(e)[:300] + ' | ' + traceback.format_exc()[-600:], 'observed': [], 'direct': [], 'final': {}}
+            res = {'crash': repr(e)[:300] + ' | ' + traceback.format_exc()[-600:], 'observed': [], 'direct': [], 'final': {}, 'extra': []}
         res['elapsed'] = round(time.time() - t0, 2)
         out.append({'cfg': c, 'obs': res, 'oracle': oracle(c, res), 'strategy': f'n{len(c["reqs"])}', 'verdict': 'ok'})
     json.dump(out, open(outp, 'w'))
@@ -288,7 +326,8 @@ def check(tier, seed, replay=None):
         rule='random cases: a hosted list, dict, Value and custom class (whose make_list returns managed() lists, up to 3 per case) with random '
              'initial contents; 5-60 requests drawn from 17 list, 14 dict, 2 Value and 4 custom-class operations with arguments chosen so that '
              'about a fifth raise (IndexError, ValueError, KeyError); every request goes through a randomly chosen route: original proxy, '
-             'unpickled copy, second thread, second process. non-trivial = at least 15 requests of which one raised; distinct = distinct case',
+             'unpickled copy, second thread, second process, or (list and dict) a proxy held by another hosted object and used inside the server '
+             'process; each case ends with calls on a second manager class that hosts a different class under the same typeid. non-trivial = at least 15 requests of which one raised; distinct = distinct case',
         replay=replay, post=post)
 
 
